@@ -53,3 +53,19 @@ package mary
 //@   requires recv: u != nil
 //@   ensures stored: err == nil ==> seq(u.cborData) == seq(cborData) && len(u.cborData) == len(cborData)
 // END generated C01 contracts
+
+// C08: an output value of the multi-asset eras (Mary; Alonzo, Babbage, Conway and Dijkstra outputs embed
+// this very type) decodes only if every asset quantity it carries is a natural number below 2^64. The
+// coin component is a fixed-width unsigned integer by type, and it is always the library decoder
+// (which rejects negative and oversized integers for that type) that produces it from exactly the
+// bytes handed in.
+//@ func (v *MaryTransactionOutputValue) UnmarshalCBOR(data) (err)
+//@   props C08
+//@   attr trackcalls on
+//@   requires nonnil: v != nil
+//@   ensures checked: err == nil && len(data) > 0 && old(data[0] & 224 == 128) ==> called(CheckQuantityRange) && callres(CheckQuantityRange) == nil && callarg(CheckQuantityRange, 0) == v.Assets
+//@   ensures range: err == nil && v.Assets != nil ==> forall p common.Blake2b224, a cbor.ByteString :: p in v.Assets.data && a in v.Assets.data[p] && v.Assets.data[p][a] != nil ==>
+//@       0 <= val(v.Assets.data[p][a]) && val(v.Assets.data[p][a]) < 18446744073709551616
+//@   ensures coinonly: err == nil && len(data) > 0 && old(data[0] & 224 != 128) ==> v.Assets == nil &&
+//@       called(Decode) && callres(Decode, 1) == nil && callarg(Decode, 0) == data && dyn(callarg(Decode, 1)) == type(*uint64)
+//@   ensures decoded: err == nil ==> called(Decode) && callres(Decode, 1) == nil && callarg(Decode, 0) == data
